@@ -72,6 +72,9 @@ Definition up4 (a : Z) : Z := ((a + 3) / 4) * 4.
 (* where the image ends: the highest PT_LOAD extent *)
 Definition img_end (phs : list phdr) : Z :=
   fold_right (fun ph acc => if is_load ph then Z.max (p_paddr ph + p_memsz ph) acc else acc) 0 phs.
+(* the loaded image's own extent (by virtual address): nothing is placed at or above it *)
+Definition extent (phs : list phdr) : Z :=
+  fold_right (fun ph acc => if is_load ph then Z.max (p_vaddr ph + p_memsz ph) acc else acc) 0 phs.
 Definition stack_end (phs : list phdr) (stk : shdr) : Z := up4 (BASE + img_end phs + sh_addr stk).   (* .stack declares its size in sh_addr *)
 Definition argv_at (phs : list phdr) (stk : shdr) : Z := up4 (stack_end phs stk + TCB).
 
@@ -165,15 +168,16 @@ Definition wf_elf (f : list Z) (args : list Z) : bool :=
   && (e_shstrndx hd <? e_shnum hd)
   && forallb (fun sh => match sec_name f sh with Some s => graphic_name s | None => false end) shs
   && forallb (fun ph => negb (is_load ph) ||
-        ((p_offset ph + p_filesz ph <=? flen f) && (p_filesz ph <=? p_memsz ph) && (p_vaddr ph + p_memsz ph <=? top)
-         && (p_paddr ph =? p_vaddr ph))) phs
+        ((p_offset ph + p_filesz ph <=? flen f) && (p_filesz ph <=? p_memsz ph) && (p_vaddr ph + p_memsz ph <=? top))) phs
   && disjoint_loads phs
   && (count_named f n_got <=? 1)%nat && (count_named f n_stack <=? 1)%nat && (count_named f n_symtab <=? 1)%nat
   && match find_sec f n_got with
-     | Some g => (got_hi g <=? img_end phs) && (BASE + sh_addr g <? 4294967296)
+     | Some g => (got_hi g <=? extent phs) && (BASE + sh_addr g <? 4294967296)
      | None => true end
   && match find_sec f n_stack with
      | Some s => let blk := arg_block (argv_at phs s) (argv_words args) in
+                 (* the stack is placed at the image end computed from p_paddr: it must not be below the loaded image *)
+                 (extent phs <=? img_end phs) &&
                  (8 <=? stack_end phs s) && (argv_at phs s - DRAM_START + Z.of_nat (length blk) <=? DRAM_SIZE)
      | None => true end
   && match find_sec f n_symtab with
